@@ -283,6 +283,44 @@ class Model:
         ok = e is not None and len(ps) == 2 and e["?e"] == ps[0][1] and e["?ph"] == ps[1][1]
         return ok, ("strip -> new? -> parse? -> eval? -> Ok" if ok else T.show(final)[:300])
 
+    def check_paren_shape(self):
+        """check_paren(expected): current token == expected -> consume it (Ok), otherwise Err"""
+        f = self.tb.fn("::parser::Parser::check_paren")
+        if f is None:
+            return False, "check_paren not found"
+        t = self.tb.parser_term(f)
+        CONSUME = ("|", ("seq", ("try", ("call", "P.get_next_token", ("param", "self"))), ("Ok", ("tuple",))), ("call", "P.get_next_token", ("param", "self")),
+                   ("Ok", ("try", ("call", "P.get_next_token", ("param", "self")))))
+        e = M(("if", ("call", "<Token as cmp::PartialEq>::eq", "?a", "?b"), CONSUME, ("Err",)), t)
+        pn = self._param_name(f, 1)
+        ok = e is not None and {e["?a"], e["?b"]} == {("param", pn), CUR}
+        return ok, T.show(t)[:300]
+
+    def fsa_shape(self):
+        """function_static_arguments(n): '(' e1 , ... , en ')' -- n expressions at level DefaultZero, separated by n-1
+        commas (checked after every argument but the last, or before every argument but the first), one push each"""
+        f = self.tb.fn("::parser::Parser::function_static_arguments")
+        if f is None:
+            return False, "function_static_arguments not found"
+        t = self.tb.parser_term(f)
+        GA = P("(try (call P.generate_ast (param self) (ctor OperatorCategory::DefaultZero)))")
+        e = M("(seq (try (call P.get_next_token (param self))) (try (call P.check_paren (param self) (ctor Token::LeftParen))) (let ?args (call Vec::new)) (for (bind ?i) (range (lit 0 ?ty) (param ?n)) ?body) (try (call P.check_paren (param self) (ctor Token::RightParen))) (Ok (var ?args)))", t)
+        if e is None:
+            return False, T.show(t)[:400]
+        body, ty = e["?body"], e["?ty"]
+        COMMA = ("try", ("call", "P.check_paren", ("param", "self"), ("ctor", "Token::Comma")))
+        after = ("if", ("op", "lt", ty, ("var", e["?i"]), ("op", "sub", ty, ("param", e["?n"]), ("lit", "1", ty))), COMMA, ("unit",))
+        before = ("|", ("if", ("op", "gt", ty, ("var", e["?i"]), ("lit", "0", ty)), COMMA, ("unit",)), ("if", ("op", "eq", ty, ("var", e["?i"]), ("lit", "0", ty)), ("unit",), COMMA),
+                  ("if", ("op", "ge", ty, ("var", e["?i"]), ("lit", "1", ty)), COMMA, ("unit",)))
+        PUSH1 = (("let", "?a", GA), ("call", "Vec::push", ("var", e["?args"]), ("var", "?a")))
+        PUSH2 = (("call", "Vec::push", ("var", e["?args"]), GA),)
+        for push in (PUSH1, PUSH2):
+            if M(("seq",) + push + (after,), body) is not None:
+                return True, "comma after every argument but the last"
+            if M(("seq", before) + push, body) is not None:
+                return True, "comma before every argument but the first"
+        return False, T.show(t)[:400]
+
     def list_shape(self):
         """find_item_list: name, '(', [ e { ',' e } ], ')' with exactly one push per argument into a local vector"""
         fil = self.tb.fn("::parser::Parser::find_item_list")
